@@ -4,6 +4,7 @@ import CosetProofs.Ties.ContextRouting
 import CosetProofs.Ties.Budget.Mac
 import CosetProofs.Ties.Compare.Header
 import CosetProofs.Ties.Compare.Mac
+import CosetProofs.Ties.IanaTables
 namespace Coset.Props.C04
 
 /-! ### ties to the source text (regenerated on every run, compared in the kernel with the transcribed tree) -/
@@ -23,5 +24,10 @@ theorem tie_compare_mac : Coset.Ties.compareCovered "mac" Coset.Gen.decisionBudg
 
 #print axioms tie_compare_header
 #print axioms tie_compare_mac
+
+/-- the registry tables the streams of this property build values from (by name) are the IANA assignments. -/
+theorem tie_iana_tables : Coset.Ties.IanaTablesOk := Coset.Ties.iana_tables
+
+#print axioms tie_iana_tables
 
 end Coset.Props.C04
